@@ -166,7 +166,7 @@ def evaluate(e, dtype):
                 fails.append("forward() of the same layer on an input with %d batch dimensions (after calls with other batch shapes) differs from the dense operator" % nb7); break
         # gradients of any magnitude: one input entry of 2^30 (exact in either dtype) makes parameter gradients of the order 1e9 - they must still be
         # the gradients of the dense affine map built from copies of the same parameters
-        Xh = torch.randint(-2, 3, [2] + list(si), generator=gen7).to(dtype); Xh.reshape(-1)[0] = 2.0 ** 30
+        Xh = torch.randint(-2, 3, [2] + list(si), generator=gen7).to(dtype); Xh.reshape(-1)[0] = 2.0 ** (30 if dtype == torch.float64 else 14)   # products stay exactly representable in the dtype
         Wt7 = torch.randint(-2, 3, [2] + list(so), generator=gen7).to(dtype)
         L7.zero_grad()
         (L7.forward(Xh) * Wt7).sum().backward()
@@ -174,10 +174,11 @@ def evaluate(e, dtype):
         Wd7 = torch_full_ttm(leaves7)
         yd7 = torch.tensordot(Xh, Wd7, dims=(list(range(Xh.dim() - d, Xh.dim())), list(range(d, 2 * d)))) + b7
         (yd7 * Wt7).sum().backward()
+        gall = max([float(q.grad.abs().max()) for q in leaves7 + [b7] if q.grad is not None] + [1.0])       # a small gradient can be the difference of huge terms: the bound is relative to the largest one
         for k7, (p, q) in enumerate(zip(list(L7.cores) + [L7.bias], leaves7 + [b7])):
             gmax = float(q.grad.abs().max()) if q.grad is not None else 0.0
-            if p.grad is None or list(p.grad.shape) != list(q.grad.shape) or not (float((p.grad - q.grad).abs().max()) <= (1e-12 if dtype == torch.float64 else 1e-4) * max(gmax, 1.0)):
-                fails.append("gradient of parameter %d for an input with an entry 2^30 differs from the gradient of the dense affine map (magnitude %.3g)" % (k7, gmax)); break
+            if p.grad is None or list(p.grad.shape) != list(q.grad.shape) or not (float((p.grad - q.grad).abs().max()) <= (1e-12 if dtype == torch.float64 else 1e-5) * gall):
+                fails.append("gradient of parameter %d for an input with a huge entry differs from the gradient of the dense affine map (magnitude %.3g)" % (k7, gmax)); break
         L7.zero_grad()
         Xq = torch.randint(-2, 3, [2] + list(si), generator=gen7).to(dtype)
         with torch.no_grad():
